@@ -196,7 +196,7 @@ def run(ctx):
     quick = ctx.tier == "quick"
     # (MaxDepth, PairDepth, destination spellings, host-system bytes of the archive header)
     plans = ([(3, 1, ALLFORMS, (3,)), (4, 0, ["abs"], (3,)), (2, 1, ["abs", "rel"], (0,))] if quick
-             else [(4, 2, ALLFORMS, (3,)), (5, 0, ["abs", "rel"], (3,)), (3, 2, ["abs", "rel"], (0,))])
+             else [(4, 2, ALLFORMS, (3,)), (5, 0, ["abs", "rel"], (3,)), (4, 1, ["abs", "rel"], (0,))])
     total_states = total_trans = 0
     cases = {}
     for (md, pd, forms, hosts) in plans:
